@@ -576,6 +576,9 @@ func init() {
 	reg(&propDef{id: "C10", level: "exploration", crashIsViol: false,
 		batches: []batch{{name: "stops", quick: 2400, thorough: 90000}},
 		rule:    "each evaluation is one simulated transfer stopped at a tape-chosen message after the handshake by one of: user Ctrl-C plus prompt keys through the real promptui prompt (keep / delete), the public StopTransferringFiles(bool), SIGINT or SIGTERM delivered to the server main; non-trivial = the stop fired and termination bound, reports, delete/keep semantics and bystander files were all evaluated; distinct = distinct (configuration + stop kind, schedule-trace hash, tape hash)"})
+	reg(&propDef{id: "C16", level: "exploration", crashIsViol: true,
+		batches: []batch{{name: "noise", quick: 4000, thorough: 150000}},
+		rule:    "each evaluation feeds a real trzszTransfer (tmux junk-tolerant reader or Windows-console reader) 1-4 protocol lines rendered with tape-chosen noise, in tape-chosen segments (including 1-byte segments) with pauses, and reads them back with the real recvCheck under seeded schedules; tmux grammar: CR LF at any position (inside the marker, inside a status string, right before the terminator), unrelated text in front of the marker, status control strings of the captured shape anywhere; Windows grammar: CSI sequences anywhere (also containing '!'), padding (space, tab, BS, CR), CR LF, wrap with re-print, home pre-print, and a bare cursor move before an equal character (must be kept); optionally one Ctrl-C anywhere; oracle: returned payload == original payload for every line, Ctrl-C interrupts; non-trivial = all lines compared; distinct = distinct (reader + noise kinds, schedule-trace hash, tape hash)"})
 	reg(&propDef{id: "C17", level: "exploration", crashIsViol: true,
 		batches: []batch{{name: "tunnel", quick: 2400, thorough: 90000}},
 		rule:    "each evaluation is one simulated transfer with the tunnel offered (real listener code on an in-memory network with per-host ports, real client connector path, optionally one relay with its own tunnel hop) while 0-3 attacker tasks connect to the server's or the relay's port at tape-chosen times with: unrelated text, the greeting for another id, a truncated greeting, the greeting plus one byte, the greeting split across two writes, nothing, a flood of protocol-looking lines, or the right greeting after the genuine connection is in place - and keep writing fail lines afterwards; the client's connector succeeds, refuses, returns late (1.1-3.1 s), returns a dead connection, or the server cannot listen; once the tunnel carries traffic, fail lines are injected in-band in both directions; oracles: the transfer succeeds with identical files (C01 oracle) in every case, a connection that did not present the greeting receives nothing and is closed, a second correct greeting gets no transfer traffic, no more connections carry protocol traffic than there are tunnel hops; non-trivial = oracles evaluated; distinct = distinct (configuration + connector outcome + attacker kinds, schedule-trace hash, tape hash)"})
